@@ -666,6 +666,10 @@ Definition run_c13 (c : sx) : sx :=
   | SL [SZ 4; SZ kind; SZ tamper] => s_ok [SZ (hs_expect kind tamper)]
   | SL [SZ 0; SZ r; SZ b; SZ cp; SL pms; SL ops; SL ks; SZ _] =>
       run_session (zb r) (Z.to_N b) (zb cp) (sx_pms pms) ops (sx_chunks ks)
+  | SL [SZ 0; SZ r; SZ b; SZ cp; SL pms; SL ops; SL ks; SZ _; SB _] =>
+      (* ninth element: padding the harness adds to cases with long wires (keeps them out of the
+         kernel-evaluated sample, whose literals must stay small) *)
+      run_session (zb r) (Z.to_N b) (zb cp) (sx_pms pms) ops (sx_chunks ks)
   | SL [SZ 1; SB key; SZ p; SZ align; SB data] =>
       let (m, p') := mask_words (Z.to_N align) key (Z.to_N p) data in s_ok [SB m; sN p']
   | SL [SZ 2; SL chunks] =>
